@@ -162,6 +162,8 @@ const ARGS: &[&str] = &[
     "H$",
     // strings that are not a valid NAME=value pair for the host environment
     "\"=B\"",
+    // a whole number beyond the length (+ 2) of every string of the menu
+    "9",
 ];
 
 const SUBS: &[&str] = &[
@@ -227,6 +229,17 @@ fn builtin_programs(tier: &str) -> Vec<String> {
         for l in lists {
             let call = if l.is_empty() { f.to_string() } else { format!("{}({})", f, l) };
             out.push(format!("{}PRINT {}\n", HEADER, call));
+        }
+        if quick {
+            // three arguments over a reduced menu (the full cube is part of the thorough tier)
+            const SMALL: [&str; 7] = ["1", "0", "9", "-1", "\"ab\"", "S$", "\"\""];
+            for a in SMALL {
+                for b in SMALL {
+                    for c in SMALL {
+                        out.push(format!("{}PRINT {}({}, {}, {})\n", HEADER, f, a, b, c));
+                    }
+                }
+            }
         }
         // the same call in positions the post-conversion linters treat differently
         for l in &lists2 {
